@@ -12,23 +12,27 @@ import (
 	"charonverif/internal/rt"
 )
 
-// C03 — consensus validity and integrity (DESIGN §5). Package core/qbft (generic SSA bodies, shared
-// helpers with c02.go) plus the Decide callback of core/consensus/qbft.
+// C03 — consensus validity and integrity (DESIGN §5). Package core/qbft (generic SSA bodies) plus the
+// Decide callback of core/consensus/qbft. The obligations are decided with the valuation-driven
+// evaluator of c03x.go ("under assumption A the point is unreachable / every return yields k"), so
+// that they are insensitive to the spelling of the guards (named booleans, merged or split
+// conditions, inverted polarity, switch vs if-chains, single-exit style, hoisted locals) and follow
+// in-package helpers and function literals. Anchors of Run are resolved in c03run.go.
 
 const c03Q = "core/consensus/qbft"
 
 func init() {
 	Register(&Prop{
 		ID: "C03",
-		Decides: "core/qbft: (V1) every Definition.Decide call of Run lies behind the decided-latch test of the receive case (the decided edge reaches neither classify nor Decide), " +
+		Decides: "core/qbft: (V1) every Definition.Decide call of Run lies behind the decided-latch test of the receive case (once the latch list is non-empty neither classify nor Decide can be reached), " +
 			"on every path from the call back to the event loop the latch variable holds the very qcommit passed to Decide, and the latch is never cleared where a decision may already exist; " +
-			"(V2) every PRE-PREPARE broadcast carrying the node's own input loads it behind a zero-value test of that input with no intervening re-assignment (receive case and broadcastOwnPrePrepare), " +
-			"and isJustifiedPrePrepare rejects a zero value before any accepting return; " +
-			"(V3) classify returns UponQuorumCommits only behind len(commits) >= Quorum() with commits = filterMsgs(flatten(buffer), COMMIT, msg.Round(), msg.Value()) and returns that list, " +
-			"returns UponJustifiedDecided only for a DECIDED message with its own justification, isJustified routes DECIDED to isJustifiedDecided (which counts COMMITs of the message's round and value, as C02-Q4), " +
+			"(V2) every PRE-PREPARE broadcast carrying the node's own input is unreachable when that input (same assignment) is the zero value (receive case and broadcastOwnPrePrepare), " +
+			"and isJustifiedPrePrepare returns false whenever msg.Value() is the zero value; " +
+			"(V3) classify returns UponQuorumCommits only where len(list) >= Quorum() holds for the returned list = filterMsgs(flatten(buffer), COMMIT, msg.Round(), msg.Value()), " +
+			"returns UponJustifiedDecided only for a DECIDED message with its own justification, for a DECIDED message isJustified returns exactly the verdict of isJustifiedDecided (which accepts only behind a quorum of COMMITs of the message's justification, round and value), " +
 			"and Run calls Decide only for those two rules with (msg.Value(), msg.Round(), classify's justification); " +
 			"(V4) the Decide callback of core/consensus/qbft hands subscribers UnmarshalNew of qcommit[i].Values()[valueHash] (checked lookup by the decided hash; Values() is the recomputed-hash map, C05-A3); " +
-			"(V5) the only other PRE-PREPARE value is pv of getSingleJustifiedPrPv(justification) on its ok edge inside the UponQuorumRoundChanges branch, with classify handing over the checked result of getJustifiedQrc. " +
+			"(V5) the only other PRE-PREPARE value is pv of getSingleJustifiedPrPv(justification), unreachable when its ok result is false, inside the UponQuorumRoundChanges branch, with classify handing over the checked result of getJustifiedQrc. " +
 			"Relies on C02-Q1/Q2/Q4 (source-unique quorums, justified-before-classified, justification predicates) and C05-A1/A3 (values map keyed by recomputed hashes).",
 		NotDecided: "'some leader proposed the value' as a history property over schedules and adversaries; that Quorum() > 0 (a decided qcommit is non-empty, so the latch test sees it); purity of the Msg accessors.",
 		Run:        c03,
@@ -38,124 +42,86 @@ func init() {
 
 func c03(c *rt.Ctx) {
 	c.Rule("V1", 4, func() { c03V1(c) })
-	c.Rule("V2", 5, func() { c03V2(c) })
-	c.Rule("V3", 17, func() { c03V3(c) })
+	c.Rule("V2", 2, func() { c03V2(c) })
+	c.Rule("V3", 14, func() { c03V3(c) })
 	c.Rule("V4", 4, func() { c03V4(c) })
 	c.Rule("V5", 7, func() { c03V5(c) })
 }
 
 // ---------------------------------------------------------------------------------------------
-// shared helpers
+// V1 — single, latched decision
 
-// c03DecideCalls returns the calls through Definition.Decide in Run and its closures.
-func c03DecideCalls(r *c02Run) []ssa.CallInstruction {
-	var out []ssa.CallInstruction
-	for _, f := range r.all {
-		for _, in := range an.Instrs(f, false) {
-			if ci, ok := in.(ssa.CallInstruction); ok && c02Callee(ci.Common()) == "field:"+c02P+".Definition.Decide" {
-				out = append(out, ci)
-			}
-		}
-	}
-	return out
-}
-
-// c03RuleCut cuts the edges on which classify's rule equals one of the given constants.
-func c03RuleCut(r *c02Run, rules ...int64) func(b *ssa.BasicBlock, i int) bool {
-	return func(b *ssa.BasicBlock, i int) bool {
-		iff, ok := b.Instrs[len(b.Instrs)-1].(*ssa.If)
-		if !ok {
-			return false
-		}
-		bin, ok := iff.Cond.(*ssa.BinOp)
-		if !ok || (bin.Op != token.EQL && bin.Op != token.NEQ) {
-			return false
-		}
-		other := bin.Y
-		if bin.X != r.ruleV {
-			if bin.Y != r.ruleV {
-				return false
-			}
-			other = bin.X
-		}
-		n, isC := an.ConstInt(other)
-		if !isC {
-			return false
-		}
-		for _, k := range rules {
-			if n == k {
-				return (bin.Op == token.EQL && i == 0) || (bin.Op == token.NEQ && i == 1)
-			}
-		}
-		return false
-	}
-}
-
-// c03Latch is a branch of Run testing whether a decision has been recorded.
+// c03Latch is a comparison in Run (or a function literal on the call chain) telling whether a decision
+// has been recorded.
 type c03Latch struct {
-	iff     *ssa.If
-	x       ssa.Value // the tested slice
-	decided int       // successor index taken once the slice is non-empty
+	bin     *ssa.BinOp
+	x       ssa.Value // the tested list
+	decided bool      // truth value of bin once the list is non-empty
+	fr      *c03Frame // activation the comparison is evaluated in
 }
 
-// c03Latches finds `len(x) > 0`-style tests (and x != nil) on slices of type typ in fn; tests of the
-// length against something that is not a recognised constant are returned as unrecognised.
-func c03Latches(fn *ssa.Function, typ types.Type) (out []c03Latch, unrecognised []*ssa.If) {
-	for _, b := range fn.Blocks {
-		iff, ok := b.Instrs[len(b.Instrs)-1].(*ssa.If)
-		if !ok {
-			continue
-		}
-		bin, ok := iff.Cond.(*ssa.BinOp)
-		if !ok || !c02IsCmp(bin.Op) {
+// c03Latches finds `len(x) > 0`-style comparisons (and x != nil) on lists of type typ in fn; length
+// comparisons against something that is not a recognised constant are returned as odd.
+func c03Latches(fn *ssa.Function, typ types.Type) (out []c03Latch, odd []*ssa.BinOp) {
+	for _, in := range an.Instrs(fn, false) {
+		bin, ok := in.(*ssa.BinOp)
+		if !ok || !c03IsCmp(bin.Op) {
 			continue
 		}
 		x, y, op := bin.X, bin.Y, bin.Op
-		if arg := c02LenArg(y); arg != nil || (types.Identical(y.Type(), typ) && !an.IsNilConst(y)) {
-			x, y, op = y, x, c02Flip(op)
+		if arg := c03LenArg(y); arg != nil || (types.Identical(y.Type(), typ) && !an.IsNilConst(y)) {
+			x, y, op = y, x, c03Flip(op)
 		}
-		if arg := c02LenArg(x); arg != nil && types.Identical(arg.Type(), typ) {
+		if arg := c03LenArg(x); arg != nil {
+			if !types.Identical(arg.Type(), typ) {
+				continue
+			}
 			n, isC := an.ConstInt(y)
 			if !isC {
-				unrecognised = append(unrecognised, iff)
+				if _, isT := c03Threshold(y); !isT {
+					odd = append(odd, bin)
+				}
 				continue
 			}
-			dec := -1
 			switch {
 			case (op == token.GTR || op == token.NEQ) && n == 0, op == token.GEQ && n == 1:
-				dec = 0
+				out = append(out, c03Latch{bin: bin, x: arg, decided: true})
 			case (op == token.EQL || op == token.LEQ) && n == 0, op == token.LSS && n == 1:
-				dec = 1
+				out = append(out, c03Latch{bin: bin, x: arg, decided: false})
+			default:
+				odd = append(odd, bin)
 			}
-			if dec < 0 {
-				unrecognised = append(unrecognised, iff)
-				continue
-			}
-			out = append(out, c03Latch{iff, arg, dec})
 			continue
 		}
 		if types.Identical(x.Type(), typ) && an.IsNilConst(y) {
 			switch op {
 			case token.NEQ:
-				out = append(out, c03Latch{iff, x, 0})
+				out = append(out, c03Latch{bin: bin, x: x, decided: true})
 			case token.EQL:
-				out = append(out, c03Latch{iff, x, 1})
+				out = append(out, c03Latch{bin: bin, x: x, decided: false})
 			}
 		}
 	}
 	return
 }
 
-// c03Cuts: the latch test dominates sink and its decided edge cannot reach sink without being tested again.
-func (l c03Latch) cuts(sink ssa.Instruction) (bool, string) {
-	ib := l.iff.Block()
-	if ib == sink.Block() || !ib.Dominates(sink.Block()) {
-		return false, "the decided-test does not dominate it"
+// cuts: the latch comparison is evaluated on every path to sink s (of activation sfr), and once it says
+// "decided" the sink cannot be reached without evaluating it again.
+func (l c03Latch) cuts(r *c03Run, sfr *c03Frame, s ssa.Instruction) (good bool, unsure bool, why string) {
+	if !c03IsAncestor(l.fr, sfr) {
+		return false, true, "the decided-test is not evaluated on the call chain leading to it"
 	}
-	if !an.EdgeCuts(ib.Succs[l.decided], sink, map[*ssa.BasicBlock]bool{ib: true}) {
-		return false, "it is reachable from the edge taken when a decision is already recorded"
+	if !r.dominatesPt(l.fr, l.bin, sfr, s) {
+		return false, true, "the decided-test does not dominate it"
 	}
-	return true, ""
+	reach, und := r.reachAfter(r.eng.under(c03NoFacts().val(l.bin, c03Bool(l.decided))), l.fr, l.bin, sfr, s)
+	if und {
+		return false, true, "too many paths"
+	}
+	if reach {
+		return false, false, "it is reachable although the test says that a decision is already recorded"
+	}
+	return true, false, ""
 }
 
 // c03Delivered returns the values phi p (in a loop header) receives along every CFG path from
@@ -244,62 +210,6 @@ func c03DerivedFrom(v, q ssa.Value, d int) bool {
 	return false
 }
 
-// c03ReachUnder: like an.C05ReachUnder (control can flow from just after `from` to sink when every
-// branch decided by env takes only the decided successor), but also decides a branch on a phi of
-// the branching block from the edge it was entered by (the shape of `a && b` / `a || b`).
-func c03ReachUnder(from, sink ssa.Instruction, env an.C05Env) bool {
-	type state struct{ b, pred *ssa.BasicBlock }
-	if from.Block() == sink.Block() && an.Dominates(from, sink) {
-		return true
-	}
-	next := func(b, pred *ssa.BasicBlock) []*ssa.BasicBlock {
-		iff, ok := b.Instrs[len(b.Instrs)-1].(*ssa.If)
-		if !ok {
-			return b.Succs
-		}
-		penv := func(v ssa.Value) (constant.Value, bool) {
-			if k, ok := env(v); ok {
-				return k, true
-			}
-			if ph, ok := v.(*ssa.Phi); ok && ph.Block() == b && pred != nil {
-				for i, q := range b.Preds {
-					if q == pred {
-						return an.C05Eval(ph.Edges[i], env)
-					}
-				}
-			}
-			return nil, false
-		}
-		if k, ok := an.C05Eval(iff.Cond, penv); ok && k.Kind() == constant.Bool {
-			if constant.BoolVal(k) {
-				return b.Succs[:1]
-			}
-			return b.Succs[1:2]
-		}
-		return b.Succs
-	}
-	seen := map[state]bool{}
-	var work []state
-	for _, s := range next(from.Block(), nil) {
-		work = append(work, state{s, from.Block()})
-	}
-	for len(work) > 0 {
-		st := work[len(work)-1]
-		work = work[:len(work)-1]
-		if seen[st] || st.b == from.Block() {
-			continue
-		}
-		seen[st] = true
-		if st.b == sink.Block() {
-			return true
-		}
-		for _, s := range next(st.b, st.pred) {
-			work = append(work, state{s, st.b})
-		}
-	}
-	return false
-}
-
 func c03LoopOf(fn *ssa.Function, header *ssa.BasicBlock) *an.Loop {
 	for _, l := range an.Loops(fn) {
 		if l.Header == header {
@@ -309,11 +219,196 @@ func c03LoopOf(fn *ssa.Function, header *ssa.BasicBlock) *an.Loop {
 	return nil
 }
 
-// ---------------------------------------------------------------------------------------------
-// V1 — single, latched decision
+// c03Flow follows the assignments of one captured variable along the control flow of Run and the
+// function literals it calls (entered at their call sites, left into the calling activation).
+type c03Flow struct {
+	r       *c03Run
+	cell    *ssa.Alloc
+	q       ssa.Value // the value the variable should hold
+	qfr     *c03Frame
+	targets map[ssa.Instruction]bool
+	floor   *c03Frame // do not continue into the caller of this activation
+	seen    map[c03FlowKey]bool
+	sub     map[c03FlowSub]*c03Frame
+	touch   map[*ssa.Function]int
+	arrived []int // states at the targets: 1 holds q, 2 holds something else, 3 unknown
+	budget  int
+}
+
+type c03FlowKey struct {
+	fr *c03Frame
+	at ssa.Instruction
+	s  int
+}
+
+type c03FlowSub struct {
+	fr *c03Frame
+	in ssa.Instruction
+}
+
+// touches: g (or a function literal it calls) assigns the variable or contains a target.
+func (f *c03Flow) touches(g *ssa.Function) bool {
+	switch f.touch[g] {
+	case 1:
+		return true
+	case 2, 3:
+		return false
+	}
+	f.touch[g] = 3
+	res := false
+	for _, in := range an.Instrs(g, false) {
+		if f.targets[in] {
+			res = true
+		}
+		switch x := in.(type) {
+		case *ssa.Store:
+			if f.r.cellAddr(x.Addr) == f.cell {
+				res = true
+			}
+		case ssa.CallInstruction:
+			if !x.Common().IsInvoke() {
+				if h := f.r.closureOf(x.Common().Value); h != nil && h != f.r.fn && h != g && f.touches(h) {
+					res = true
+				}
+			}
+		}
+	}
+	if res {
+		f.touch[g] = 1
+	} else {
+		f.touch[g] = 2
+	}
+	return res
+}
+
+func (f *c03Flow) run(fr *c03Frame, b *ssa.BasicBlock, i int, s int) {
+	if f.budget--; f.budget < 0 {
+		f.arrived = append(f.arrived, 3)
+		return
+	}
+	for ; i < len(b.Instrs); i++ {
+		in := b.Instrs[i]
+		if f.targets[in] {
+			f.arrived = append(f.arrived, s)
+			return
+		}
+		switch x := in.(type) {
+		case *ssa.Store:
+			if f.r.cellAddr(x.Addr) == f.cell {
+				if f.r.sameAt(fr, x.Val, f.qfr, f.q) {
+					s = 1
+				} else {
+					s = 2
+				}
+			}
+		case *ssa.Return:
+			if fr == f.floor || fr.up == nil || fr.site == nil {
+				return
+			}
+			k := c03FlowKey{fr.up, fr.site, s}
+			if f.seen[k] {
+				return
+			}
+			f.seen[k] = true
+			sb := fr.site.Block()
+			for j, y := range sb.Instrs {
+				if y == ssa.Instruction(fr.site) {
+					f.run(fr.up, sb, j+1, s)
+				}
+			}
+			return
+		case ssa.CallInstruction:
+			if x.Common().IsInvoke() {
+				continue
+			}
+			g := f.r.closureOf(x.Common().Value)
+			if g == nil || g == f.r.fn || !f.touches(g) {
+				continue
+			}
+			if _, isCall := x.(*ssa.Call); !isCall || fr.depth() >= 7 || fr.has(g) || len(g.Blocks) == 0 || len(g.Params) != len(x.Common().Args) {
+				s = 3
+				continue
+			}
+			sk := c03FlowSub{fr, in}
+			nf := f.sub[sk]
+			if nf == nil {
+				nf = &c03Frame{fn: g, up: fr, site: x}
+				f.sub[sk] = nf
+			}
+			k := c03FlowKey{nf, g.Blocks[0].Instrs[0], s}
+			if f.seen[k] {
+				return
+			}
+			f.seen[k] = true
+			f.run(nf, g.Blocks[0], 0, s)
+			return // control continues after the call when the callee returns
+		}
+	}
+	for _, nb := range b.Succs {
+		if len(nb.Instrs) == 0 {
+			continue
+		}
+		k := c03FlowKey{fr, nb.Instrs[0], s}
+		if f.seen[k] {
+			continue
+		}
+		f.seen[k] = true
+		f.run(fr, nb, 0, s)
+	}
+}
+
+func (f *c03Flow) verdict() int {
+	if len(f.arrived) == 0 {
+		return 0
+	}
+	v := 1
+	for _, a := range f.arrived {
+		if a == 2 {
+			return 2
+		}
+		if a == 3 {
+			v = 3
+		}
+	}
+	return v
+}
+
+// c03CellHolds: the latch is the captured variable `cell`. On every path from the Decide call dc (of
+// activation dfr) to the next load of the cell by a latch comparison, the last assignment of the cell is
+// the qcommit q.
+func c03CellHolds(r *c03Run, cell *ssa.Alloc, tests map[ssa.Instruction]bool, dfr *c03Frame, dc ssa.CallInstruction, q ssa.Value) (good, unsure bool, why string) {
+	mk := func(targets map[ssa.Instruction]bool, floor *c03Frame) *c03Flow {
+		return &c03Flow{r: r, cell: cell, q: q, qfr: dfr, targets: targets, floor: floor, seen: map[c03FlowKey]bool{},
+			sub: map[c03FlowSub]*c03Frame{}, touch: map[*ssa.Function]int{}, budget: 50000}
+	}
+	// what the variable holds when the Decide call is reached (assignments in the activation of dc only)
+	pre := mk(map[ssa.Instruction]bool{dc: true}, dfr)
+	pre.run(dfr, dfr.fn.Blocks[0], 0, 2)
+	state := pre.verdict()
+	if state == 0 {
+		state = 2
+	}
+	post := mk(tests, nil)
+	idx := 0
+	for i, in := range dc.Block().Instrs {
+		if in == ssa.Instruction(dc) {
+			idx = i + 1
+		}
+	}
+	post.run(dfr, dc.Block(), idx, state)
+	switch post.verdict() {
+	case 1:
+		return true, false, ""
+	case 2:
+		return false, false, "on a path from the Decide call back to the decided-test the latch variable does not hold the qcommit passed to Decide"
+	case 3:
+		return false, true, "the assignments of the latch variable could not be followed through the function literals of Run"
+	}
+	return false, true, "no path from the Decide call back to the decided-test"
+}
 
 func c03V1(c *rt.Ctx) {
-	r := c02NewRun(c)
+	r := c03NewRun(c)
 	decides := c03DecideCalls(r)
 	if len(decides) == 0 {
 		c.Bail("Run: no call through Definition.Decide found")
@@ -325,31 +420,88 @@ func c03V1(c *rt.Ctx) {
 		}
 		qt = dc.Common().Args[4].Type()
 	}
-	latches, odd := c03Latches(r.fn, qt)
+	// latch tests of the activations on the call chains to classify and to the Decide calls
+	var latches []c03Latch
 	undecidedWhy := ""
-	if len(odd) > 0 {
-		undecidedWhy = "a length test of a message list in Run compares with something other than a recognised constant"
+	onChain := map[*ssa.Function]bool{}
+	collect := func(fr *c03Frame) {
+		for f := fr; f != nil; f = f.up {
+			if onChain[f.fn] {
+				continue
+			}
+			onChain[f.fn] = true
+			ls, odd := c03Latches(f.fn, qt)
+			for _, l := range ls {
+				l.fr = f
+				latches = append(latches, l)
+			}
+			if len(odd) > 0 {
+				undecidedWhy = "a length test of a message list in Run compares with something other than a recognised constant"
+			}
+		}
 	}
-	// (a) holds: on every path from the Decide call back to the loop header the latch holds the qcommit argument
-	holds := func(l c03Latch, dc ssa.CallInstruction) (good bool, unsure bool, why string) {
-		q := dc.Common().Args[4]
-		if cell := r.cellOf(l.x); cell != nil {
-			any := false
-			for _, st := range r.stores(cell) {
-				if st.Val == q {
-					any = true
-					if st.Parent() == r.fn && st.Block() == dc.Block() {
-						return true, false, ""
+	collect(r.cfr)
+	dfrs := map[ssa.CallInstruction]*c03Frame{}
+	for _, dc := range decides {
+		if dfr := r.frameOf(dc.Parent()); dfr != nil {
+			dfrs[dc] = dfr
+			collect(dfr)
+		}
+	}
+	// a latch test in a function literal off the call chains cannot be related to the control flow
+	latchCell := func(cell *ssa.Alloc) bool {
+		for _, st := range r.stores(cell) {
+			for _, dc := range decides {
+				if dfr := dfrs[dc]; dfr != nil {
+					for _, sf := range r.framesOf(st.Parent()) {
+						if c03IsAncestor(sf, dfr) && r.sameAt(sf, st.Val, dfr, dc.Common().Args[4]) {
+							return true
+						}
 					}
 				}
 			}
-			if any {
-				return false, true, "the latch is a captured variable assigned the qcommit away from the Decide call"
+		}
+		return false
+	}
+	for _, f := range r.all {
+		if onChain[f] {
+			continue
+		}
+		l, _ := c03Latches(f, qt)
+		for _, x := range l {
+			if cell := r.cellOf(x.x); cell != nil && latchCell(cell) && undecidedWhy == "" {
+				undecidedWhy = "a function literal of Run outside the call chain tests whether the list that records the decision is empty"
 			}
-			return false, false, "the tested list is never assigned the qcommit passed to Decide"
+		}
+	}
+	sameVar := func(a, b c03Latch) bool {
+		if ca := r.cellOf(a.x); ca != nil {
+			return ca == r.cellOf(b.x)
+		}
+		pa, ok1 := an.Unwrap(a.x).(*ssa.Phi)
+		pb, ok2 := an.Unwrap(b.x).(*ssa.Phi)
+		if !ok1 || !ok2 {
+			return a.x == b.x
+		}
+		web, _ := c03PhiWeb(pa)
+		return web[pb]
+	}
+	// holds: on every path from the Decide call back to the latch test the latch holds the qcommit argument
+	holds := func(l c03Latch, dfr *c03Frame, dc ssa.CallInstruction) (good bool, unsure bool, why string) {
+		q := dc.Common().Args[4]
+		if cell := r.cellOf(l.x); cell != nil {
+			tests := map[ssa.Instruction]bool{}
+			for _, o := range latches {
+				if sameVar(l, o) {
+					if ld, ok := an.Unwrap(o.x).(*ssa.UnOp); ok {
+						tests[ld] = true
+					}
+				}
+			}
+			return c03CellHolds(r, cell, tests, dfr, dc, q)
 		}
 		p, isPhi := an.Unwrap(l.x).(*ssa.Phi)
-		if !isPhi {
+		if !isPhi || dfr != r.root || l.fr != r.root {
 			return false, false, "the tested list is never assigned the qcommit passed to Decide"
 		}
 		loop := c03LoopOf(r.fn, p.Block())
@@ -363,9 +515,9 @@ func c03V1(c *rt.Ctx) {
 		if len(vals) == 0 {
 			return false, true, "no path from the Decide call back to the event loop"
 		}
-		web, _ := c02PhiWeb(p)
+		web, _ := c03PhiWeb(p)
 		for _, v := range vals {
-			if v == q {
+			if r.same(v, q) {
 				continue
 			}
 			if ph, ok := v.(*ssa.Phi); (ok && web[ph]) || an.IsNilConst(v) {
@@ -374,24 +526,39 @@ func c03V1(c *rt.Ctx) {
 			if c03DerivedFrom(v, q, 0) {
 				return false, true, "the latch is set to a value derived from, but not identical to, the qcommit passed to Decide"
 			}
+			if _, isPhi := v.(*ssa.Phi); isPhi {
+				return false, true, "the value the latch is set to is merged from several assignments"
+			}
 			return false, false, "on a path from the Decide call back to the event loop the latch is set to something other than the qcommit passed to Decide"
 		}
 		return true, false, ""
 	}
 	var used []c03Latch
 	for _, dc := range decides {
-		if dc.Parent() != r.fn {
-			c.Unsure("Run Decide call", dc.Pos(), "Definition.Decide is called from a helper closure of Run")
+		dfr := dfrs[dc]
+		if dfr == nil {
+			c.Unsure("Run Decide call", dc.Pos(), "Definition.Decide is called from a function literal of Run that is not reached through exactly one call chain")
 			continue
 		}
 		if _, isCall := dc.(*ssa.Call); !isCall {
 			c.Unsure("Run Decide call", dc.Pos(), "Definition.Decide is deferred or started as a goroutine")
 			continue
 		}
+		// the tests that matter are those evaluated on every path to the Decide call
+		relevant := latches
+		var dom []c03Latch
+		for _, l := range latches {
+			if c03IsAncestor(l.fr, dfr) && r.dominatesPt(l.fr, l.bin, dfr, dc) {
+				dom = append(dom, l)
+			}
+		}
+		if len(dom) > 0 {
+			relevant = dom
+		}
 		var mine []c03Latch
 		why, unsure := "Run has no `len(list) > 0` test of a qcommit-typed list", false
-		for _, l := range latches {
-			g, u, w := holds(l, dc)
+		for _, l := range relevant {
+			g, u, w := holds(l, dfr, dc)
 			if g {
 				mine = append(mine, l)
 			} else {
@@ -403,64 +570,105 @@ func c03V1(c *rt.Ctx) {
 		switch {
 		case len(mine) > 0:
 			c.Good(key, dc.Pos(), "every path back to the event loop carries the qcommit in the tested list")
-		case unsure || (len(latches) == 0 && undecidedWhy != ""):
+		case unsure || undecidedWhy != "":
 			c.Unsure(key, dc.Pos(), why+"; "+undecidedWhy)
 		default:
 			c.Bad(key, dc.Pos(), why+": a second justified DECIDED or COMMIT quorum calls Decide again")
 		}
 		cands := mine
 		if len(cands) == 0 {
-			cands = latches
+			cands = relevant
 		}
 		for _, sk := range []struct {
+			fr   *c03Frame
 			in   ssa.Instruction
 			what string
-		}{{dc, "Decide"}, {r.classify, "classify"}} {
+		}{{dfr, dc, "Decide"}, {r.cfr, r.classify, "classify"}} {
 			key := "Run decided-test cuts off " + sk.what
-			good, why := false, "no decided-test found"
+			good, unsure, definite, why := false, false, false, "no decided-test found"
 			for _, l := range cands {
-				g, w := l.cuts(sk.in)
-				if g {
+				g, u, w := l.cuts(r, sk.fr, sk.in)
+				switch {
+				case g:
 					good = true
-				} else {
+				case u:
+					unsure = true
+					if !definite {
+						why = w
+					}
+				default:
+					definite = true
 					why = w
 				}
 			}
-			if !good && len(cands) == 0 && undecidedWhy != "" {
-				c.Unsure(key, posOf(sk.in), undecidedWhy)
-				continue
+			switch {
+			case good:
+				c.Good(key, posOf(sk.in), "")
+			case (unsure && !definite) || (len(cands) == 0 && undecidedWhy != ""):
+				c.Unsure(key, posOf(sk.in), why+"; "+undecidedWhy)
+			default:
+				c.Bad(key, posOf(sk.in), sk.what+" is not confined to the undecided edge of the latch test: "+why)
 			}
-			c.Check(key, posOf(sk.in), good, sk.what+" is not confined to the undecided edge of the latch test: "+why)
 		}
 		for _, l := range cands {
-			if g, _ := l.cuts(dc); g || len(mine) > 0 {
+			if g, _, _ := l.cuts(r, dfr, dc); g || len(mine) > 0 {
 				used = append(used, l)
 			}
 		}
 	}
-	// (d) never cleared where a decision may exist
-	done := map[*ssa.If]bool{}
+	// never cleared where a decision may exist
+	done := map[*ssa.BinOp]bool{}
 	for _, l := range used {
-		if done[l.iff] {
+		if done[l.bin] {
 			continue
 		}
-		done[l.iff] = true
-		ib := l.iff.Block()
-		harmful := func(b *ssa.BasicBlock) bool {
-			return !ib.Dominates(b) || b == ib || an.CanReach(ib.Succs[l.decided], b, map[*ssa.BasicBlock]bool{ib: true})
+		done[l.bin] = true
+		eng := r.eng.under(c03NoFacts().val(l.bin, c03Bool(l.decided)))
+		// harmful: 0 no, 1 yes, 2 unknown
+		harmful := func(fr *c03Frame, at ssa.Instruction) int {
+			if !c03IsAncestor(l.fr, fr) {
+				return 1
+			}
+			if top, ok := c03Lift(fr, l.fr, at); ok && top.Block() != l.bin.Block() && !an.CanReach(l.bin.Block(), top.Block(), nil) {
+				return 0 // cannot execute once the test has been evaluated (initialisation before the event loop)
+			}
+			if !r.dominatesPt(l.fr, l.bin, fr, at) {
+				return 1
+			}
+			reach, und := r.reachAfter(eng, l.fr, l.bin, fr, at)
+			switch {
+			case und:
+				return 2
+			case reach:
+				return 1
+			}
+			return 0
 		}
 		var bad ssa.Instruction
+		unknown := false
 		if cell := r.cellOf(l.x); cell != nil {
 			for _, st := range r.stores(cell) {
 				if !an.IsNilConst(st.Val) {
 					continue
 				}
-				if st.Parent() != r.fn || (st.Block().Index != 0 && harmful(st.Block())) {
-					bad = st
+				if st.Parent() == r.fn && st.Block().Index == 0 {
+					continue // initialisation
+				}
+				frs := r.framesOf(st.Parent())
+				if len(frs) == 0 {
+					unknown = true
+				}
+				for _, sf := range frs {
+					switch harmful(sf, st) {
+					case 1:
+						bad = st
+					case 2:
+						unknown = true
+					}
 				}
 			}
 		} else if p, ok := an.Unwrap(l.x).(*ssa.Phi); ok {
-			web, _ := c02PhiWeb(p)
+			web, _ := c03PhiWeb(p)
 			loop := c03LoopOf(r.fn, p.Block())
 			for ph := range web {
 				for i, e := range ph.Edges {
@@ -471,26 +679,35 @@ func c03V1(c *rt.Ctx) {
 					if loop != nil && !loop.Body[pred] {
 						continue // initial value
 					}
-					if harmful(pred) {
+					switch harmful(r.root, pred.Instrs[len(pred.Instrs)-1]) {
+					case 1:
 						bad = pred.Instrs[len(pred.Instrs)-1]
+					case 2:
+						unknown = true
 					}
 				}
 			}
 		}
-		if bad != nil {
+		switch {
+		case bad != nil:
 			c.Bad("Run decision latch never cleared", posOf(bad), "the latch is reset to nil at a point reachable after a decision: the next DECIDED/COMMIT quorum calls Decide a second time")
-		} else {
-			c.Good("Run decision latch never cleared", l.iff.Pos(), "no nil assignment outside the undecided edge")
+		case unknown:
+			c.Unsure("Run decision latch never cleared", l.bin.Pos(), "whether a nil assignment of the latch can execute after a decision could not be decided")
+		default:
+			c.Good("Run decision latch never cleared", l.bin.Pos(), "no nil assignment outside the undecided edge")
 		}
 	}
 }
 
+var _ = fmt.Sprintf
+var _ = constant.MakeBool
+
 // ---------------------------------------------------------------------------------------------
 // V2 — zero value never proposed / accepted
 
-// c03InputCell finds the state cell of Run that receives the node's own input value (select receive
+// c03InputCell finds the state cell of Run that receives the node's own input value (receive
 // from the <-chan V parameter).
-func c03InputCell(r *c02Run, vt types.Type) *ssa.Alloc {
+func c03InputCell(r *c03Run, vt types.Type) *ssa.Alloc {
 	var param *ssa.Parameter
 	for _, p := range r.fn.Params {
 		if ch, ok := p.Type().Underlying().(*types.Chan); ok && types.Identical(ch.Elem(), vt) {
@@ -504,13 +721,21 @@ func c03InputCell(r *c02Run, vt types.Type) *ssa.Alloc {
 		r.c.Bail("Run: no <-chan V parameter")
 	}
 	fromParam := func(ch ssa.Value) bool {
+		ch = an.Resolve(ch)
 		if ch == ssa.Value(param) {
 			return true
 		}
 		if ph, ok := ch.(*ssa.Phi); ok {
-			_, ins := c02PhiWeb(ph)
+			_, ins := c03PhiWeb(ph)
 			for _, in := range ins {
-				if in == ssa.Value(param) {
+				if an.Resolve(in) == ssa.Value(param) {
+					return true
+				}
+			}
+		}
+		if cell := r.cellOf(ch); cell != nil {
+			for _, st := range r.stores(cell) {
+				if an.Resolve(st.Val) == ssa.Value(param) {
 					return true
 				}
 			}
@@ -554,14 +779,12 @@ func c03InputCell(r *c02Run, vt types.Type) *ssa.Alloc {
 		if recv == nil {
 			continue
 		}
-		for _, ref := range *recv.Referrers() {
-			if st, ok := ref.(*ssa.Store); ok && st.Val == recv {
-				if a := r.cellAddr(st.Addr); a != nil {
-					if cell != nil && cell != a {
-						r.c.Bail("Run: the received input value is stored into several variables")
-					}
-					cell = a
+		for _, st := range c03StoresOf(r, recv, 0) {
+			if a := r.cellAddr(st.Addr); a != nil {
+				if cell != nil && cell != a {
+					r.c.Bail("Run: the received input value is stored into several variables")
 				}
+				cell = a
 			}
 		}
 	}
@@ -574,654 +797,412 @@ func c03InputCell(r *c02Run, vt types.Type) *ssa.Alloc {
 	return cell
 }
 
-// c03PrePrepares returns the PRE-PREPARE broadcasts of Run (lifted to call sites in Run proper).
-func c03PrePrepares(r *c02Run) []c02Bcast {
-	pp := r.msgType("MsgPrePrepare")
-	var out []c02Bcast
-	for _, b := range r.bcasts() {
-		n, ok := an.ConstInt(b.args[1])
-		if !ok {
-			r.c.Unsure("Run broadcast with computed type", b.site.Pos(), "message type of a broadcast is not a constant")
-			continue
-		}
-		if n != pp {
-			continue
-		}
-		if b.open {
-			r.c.Unsure("Run PRE-PREPARE broadcast", b.inner.Pos(), "PRE-PREPARE broadcast not attributable to a call site in Run")
-			continue
-		}
-		out = append(out, b)
-	}
-	if len(out) == 0 {
-		r.c.Bail("Run: no PRE-PREPARE broadcast found")
-	}
-	return out
-}
-
-// c03PvOf: v is result #1 of a getSingleJustifiedPrPv call.
-func c03PvOf(v ssa.Value) *ssa.Call {
-	ex, ok := an.Unwrap(v).(*ssa.Extract)
-	if !ok || ex.Index != 1 {
+// c03StoresOf: the stores whose value is v (looking through conversions and single-edge phis).
+func c03StoresOf(r *c03Run, v ssa.Value, d int) []*ssa.Store {
+	var out []*ssa.Store
+	if v.Referrers() == nil || d > 3 {
 		return nil
 	}
-	return c02Static(ex.Tuple, "getSingleJustifiedPrPv")
-}
-
-func c03V2(c *rt.Ctx) {
-	r := c02NewRun(c)
-	pps := c03PrePrepares(r)
-	cell := c03InputCell(r, pps[0].inner.Common().Args[5].Type())
-	stores := r.stores(cell)
-	storing := map[*ssa.Function]bool{}
-	for _, st := range stores {
-		storing[st.Parent()] = true
-	}
-	isCellLoad := func(v ssa.Value) bool { return r.cellOf(v) == cell }
-	// uses of a loaded input value: the calls (other than the zero test itself) taking it as argument
-	usesOf := func(ld *ssa.UnOp) []ssa.Instruction {
-		var out []ssa.Instruction
-		for _, ref := range *ld.Referrers() {
-			ci, ok := ref.(ssa.CallInstruction)
-			if !ok || c02Callee(ci.Common()) == c02P+".isZeroVal" {
-				continue
+	for _, ref := range *v.Referrers() {
+		switch x := ref.(type) {
+		case *ssa.Store:
+			if x.Val == v {
+				out = append(out, x)
 			}
-			for _, a := range ci.Common().Args {
-				if a == ssa.Value(ld) {
-					out = append(out, ci)
-					break
-				}
+		case *ssa.ChangeType:
+			out = append(out, c03StoresOf(r, x, d+1)...)
+		case *ssa.Phi:
+			if len(x.Edges) == 1 {
+				out = append(out, c03StoresOf(r, x, d+1)...)
 			}
-		}
-		return out
-	}
-	guardedUse := func(ld *ssa.UnOp, use ssa.Instruction) (bool, string) {
-		fn := ld.Parent()
-		why := "no zero-value test of the input value precedes the broadcast"
-		for z, pol := range c02ZeroTests(fn, isCellLoad) {
-			var tested ssa.Instruction
-			for _, op := range an.Operands(z.(ssa.Instruction)) {
-				if isCellLoad(op) {
-					tested, _ = an.Unwrap(op).(ssa.Instruction)
-				}
-			}
-			if tested == nil {
-				continue
-			}
-			for _, cd := range an.CondsOn(fn, z) {
-				if cd.Other != nil {
-					continue
-				}
-				ib := cd.If.Block()
-				if !an.Dominates(cd.If, use) {
-					why = "the zero-value test does not dominate the broadcast"
-					continue
-				}
-				if an.CanReach(cd.Succ(pol), use.Block(), map[*ssa.BasicBlock]bool{ib: true}) {
-					why = "the zero edge of the test still reaches the broadcast"
-					continue
-				}
-				if tested == ssa.Instruction(ld) {
-					return true, ""
-				}
-				// no re-assignment between the tested load and the broadcast load
-				var between ssa.Instruction
-				for _, in := range an.Instrs(fn, false) {
-					via := false
-					switch x := in.(type) {
-					case *ssa.Store:
-						via = r.cellAddr(x.Addr) == cell
-					case ssa.CallInstruction:
-						if f := r.closureOf(x.Common().Value); f != nil && !x.Common().IsInvoke() {
-							for _, g := range an.Closure(f) {
-								via = via || storing[g]
-							}
-						}
-					}
-					if !via {
-						continue
-					}
-					stop := func(i ssa.Instruction) bool { return i == tested }
-					_, a := c02PathAvoiding(tested, in, stop)
-					_, b := c02PathAvoiding(in, ld, stop)
-					if a && b {
-						between = in
-					}
-				}
-				if between != nil {
-					why = "the input value can be re-assigned between the zero-value test and the broadcast"
-					continue
-				}
-				return true, ""
-			}
-		}
-		return false, why
-	}
-	guarded := func(ld *ssa.UnOp) (bool, string) {
-		uses := usesOf(ld)
-		if len(uses) == 0 {
-			return false, "the call consuming the loaded input value was not found"
-		}
-		for _, u := range uses {
-			if ok, why := guardedUse(ld, u); !ok {
-				return false, why
-			}
-		}
-		return true, ""
-	}
-	seen := map[ssa.Value]bool{}
-	for _, b := range pps {
-		v := b.args[5]
-		switch {
-		case isCellLoad(v):
-			ld := an.Unwrap(v).(*ssa.UnOp)
-			if seen[ld] {
-				continue
-			}
-			seen[ld] = true
-			where := "receive case"
-			if ld.Parent() != r.fn {
-				where = "helper closure"
-			}
-			ok, why := guarded(ld)
-			c.Check("Run PRE-PREPARE own input is non-zero ("+where+")", posOf(ld), ok,
-				"a PRE-PREPARE can be broadcast with the zero value as own proposal: "+why)
-		case c03PvOf(v) != nil:
-			// the justified prepared value: V5
-		default:
-			c.Bad("Run PRE-PREPARE value provenance", b.site.Pos(),
-				"a PRE-PREPARE carries a value that is neither the node's own input nor the prepared value of getSingleJustifiedPrPv")
-		}
-	}
-	// isJustifiedPrePrepare rejects the zero value before any accepting return
-	fn := c.Fn(c02P + ".isJustifiedPrePrepare")
-	msg := c02ParamOfType(c, fn, c02P+".Msg")
-	rets := c02AcceptRets(fn, 0)
-	if len(rets) == 0 {
-		c.Bail("isJustifiedPrePrepare never accepts")
-	}
-	zero := c02ZeroTests(fn, func(v ssa.Value) bool { return c02IsMsgCallOn(v, "Value", msg) })
-	for _, ret := range rets {
-		good, why := false, "no zero-value test of msg.Value()"
-		for z, pol := range zero {
-			for _, cd := range an.CondsOn(fn, z) {
-				if cd.Other != nil {
-					continue
-				}
-				if cd.If.Block().Dominates(ret.Block()) && !an.CanReach(cd.Succ(pol), ret.Block(), nil) {
-					good = true
-				} else {
-					why = "the zero-value edge can still reach the accepting return"
-				}
-			}
-		}
-		c.Check("isJustifiedPrePrepare rejects the zero value", posOf(ret), good, "a PRE-PREPARE proposing the zero value is accepted (and can then be prepared, committed and decided): "+why)
-	}
-}
-
-// ---------------------------------------------------------------------------------------------
-// V3 — decision backed by commits for that value and round
-
-type c03RetPoint struct {
-	at   ssa.Instruction
-	blk  *ssa.BasicBlock
-	rule ssa.Value
-	just ssa.Value
-}
-
-// c03RetPoints expands the returns of a (rule, justification) function into the points at which
-// the pair is chosen (looking through a result phi in the return block).
-func c03RetPoints(fn *ssa.Function) []c03RetPoint {
-	var out []c03RetPoint
-	for _, r := range an.Returns(fn) {
-		if len(r.Results) != 2 {
-			continue
-		}
-		ph, ok := r.Results[0].(*ssa.Phi)
-		if !ok || ph.Block() != r.Block() {
-			out = append(out, c03RetPoint{r, r.Block(), r.Results[0], r.Results[1]})
-			continue
-		}
-		for i, e := range ph.Edges {
-			pred := r.Block().Preds[i]
-			j := r.Results[1]
-			if jp, ok := j.(*ssa.Phi); ok && jp.Block() == r.Block() {
-				j = jp.Edges[i]
-			}
-			out = append(out, c03RetPoint{pred.Instrs[len(pred.Instrs)-1], pred, e, j})
 		}
 	}
 	return out
 }
 
-func c03V3(c *rt.Ctx) {
-	fn := c.Fn(c02P + ".classify")
-	msg := c02ParamOfType(c, fn, c02P+".Msg")
-	var buffer *ssa.Parameter
-	for _, p := range fn.Params {
-		if an.IsMapType(p.Type()) {
-			if buffer != nil {
-				c.Bail("classify: several map parameters")
-			}
-			buffer = p
-		}
-	}
-	if buffer == nil {
-		c.Bail("classify: no buffer parameter")
-	}
-	uqc := constOf(c, c02P, "UponQuorumCommits")
-	ujd := constOf(c, c02P, "UponJustifiedDecided")
-	commitT := constOf(c, c02P, "MsgCommit")
-	decidedT := constOf(c, c02P, "MsgDecided")
-	nC, nD := 0, 0
-	for _, pt := range c03RetPoints(fn) {
-		n, isC := an.ConstInt(pt.rule)
-		if !isC {
-			c.Unsure("classify returned rule", posOf(pt.at), "classify returns a computed rule; only constant rules per return are recognised")
-			continue
-		}
-		switch n {
-		case uqc:
-			nC++
-			// quorum comparison over the returned list, on whose reached edge the return lies
-			good, why := false, "no `len(list) >= d.Quorum()` test over the returned list"
-			for _, in := range an.Instrs(fn, false) {
-				bin, ok := in.(*ssa.BinOp)
-				if !ok || !c02IsCmp(bin.Op) {
-					continue
-				}
-				count, op := bin.X, bin.Op
-				k, isT := c02Threshold(bin.Y)
-				if !isT {
-					if k, isT = c02Threshold(bin.X); !isT {
-						continue
-					}
-					count, op = bin.Y, c02Flip(bin.Op)
-				}
-				if k != "quorum" || c02LenArg(count) != pt.just {
-					continue
-				}
-				idx := -1
-				switch op {
-				case token.GEQ:
-					idx = 0
-				case token.LSS:
-					idx = 1
-				}
-				if idx < 0 {
-					why = "the quorum comparison is neither `>=` nor `<`"
-					continue
-				}
-				for _, iff := range c02IfOf(bin) {
-					if c02EdgeDom(iff.Block(), idx, pt.blk) {
-						good = true
-					} else {
-						why = "the return does not lie on the quorum-reached edge"
-					}
-				}
-			}
-			c.Check("classify UponQuorumCommits behind len(commits) >= Quorum() of the returned list", posOf(pt.at), good,
-				"a decision can be triggered without a quorum of the returned COMMITs: "+why)
-			sp, ok := c02Filter(pt.just, 0)
-			if !ok {
-				c.Bad("classify UponQuorumCommits list is a filterMsgs result", posOf(pt.at), "the qcommit returned with UponQuorumCommits is not a (wrapped) filterMsgs result")
-				continue
-			}
-			fl := c02Static(sp.msgs, "flatten")
-			c.Check("classify commits filtered from flatten(buffer)", posOf(pt.at), fl != nil && fl.Call.Args[0] == ssa.Value(buffer),
-				"the COMMITs are not taken from the buffer of justified messages")
-			tn, tc := an.ConstInt(sp.typ)
-			c.Check("classify commits are COMMIT messages", posOf(pt.at), tc && tn == commitT, "the quorum backing a decision is not filtered by type COMMIT")
-			c.Check("classify commits of the message's round", posOf(pt.at), c02IsMsgCallOn(sp.round, "Round", msg), "COMMITs are not filtered by msg.Round(): commits of different rounds add up")
-			c.Check("classify commits for the message's value", posOf(pt.at), sp.value != nil && c02IsMsgCallOn(sp.value, "Value", msg) && sp.pr == nil && sp.pv == nil,
-				"COMMITs are not filtered by msg.Value(): commits for different values add up to a quorum and the decided value is not the committed one")
-		case ujd:
-			nD++
-			good, why := false, "no `msg.Type() == MsgDecided` test"
-			for _, in := range an.Instrs(fn, false) {
-				bin, ok := in.(*ssa.BinOp)
-				if !ok || (bin.Op != token.EQL && bin.Op != token.NEQ) {
-					continue
-				}
-				x, y := bin.X, bin.Y
-				if !c02IsMsgCallOn(x, "Type", msg) {
-					x, y = y, x
-				}
-				if k, isK := an.ConstInt(y); !c02IsMsgCallOn(x, "Type", msg) || !isK || k != decidedT {
-					continue
-				}
-				idx := 0
-				if bin.Op == token.NEQ {
-					idx = 1
-				}
-				for _, iff := range c02IfOf(bin) {
-					if c02EdgeDom(iff.Block(), idx, pt.blk) {
-						good = true
-					} else {
-						why = "the return does not lie on the MsgDecided edge"
-					}
-				}
-			}
-			c.Check("classify UponJustifiedDecided only for a DECIDED message", posOf(pt.at), good, "a message that did not pass isJustifiedDecided triggers a decision: "+why)
-			c.Check("classify UponJustifiedDecided returns msg.Justification()", posOf(pt.at), c02IsMsgCallOn(pt.just, "Justification", msg),
-				"the qcommit returned with UponJustifiedDecided is not the justification that isJustifiedDecided counted")
-		}
-	}
-	if nC == 0 {
-		c.Unsure("classify UponQuorumCommits", fn.Pos(), "no return of UponQuorumCommits found")
-	}
-	if nD == 0 {
-		c.Unsure("classify UponJustifiedDecided", fn.Pos(), "no return of UponJustifiedDecided found")
-	}
-
-	// isJustified routes DECIDED to isJustifiedDecided
-	{
-		ij := c.Fn(c02P + ".isJustified")
-		m := c02ParamOfType(c, ij, c02P+".Msg")
-		cut := func(b *ssa.BasicBlock, i int) bool {
-			iff, ok := b.Instrs[len(b.Instrs)-1].(*ssa.If)
-			if !ok {
-				return false
-			}
-			bin, ok := iff.Cond.(*ssa.BinOp)
-			if !ok || (bin.Op != token.EQL && bin.Op != token.NEQ) {
-				return false
-			}
-			x, y := bin.X, bin.Y
-			if !c02IsMsgCallOn(x, "Type", m) {
-				x, y = y, x
-			}
-			k, isK := an.ConstInt(y)
-			if !c02IsMsgCallOn(x, "Type", m) || !isK {
-				return false
-			}
-			truth := (k == decidedT) == (bin.Op == token.EQL)
-			return (i == 0) != truth
-		}
-		reach := c02ReachCut(ij.Blocks[0], cut)
-		isDecidedCall := func(v ssa.Value) bool {
-			call := c02Static(v, "isJustifiedDecided")
-			return call != nil && len(call.Call.Args) == 2 && call.Call.Args[1] == ssa.Value(m)
-		}
-		n := 0
-		for _, ret := range an.Returns(ij) {
-			if !reach[ret.Block()] || len(ret.Results) != 1 {
-				continue
-			}
-			n++
-			good := true
-			if ph, ok := ret.Results[0].(*ssa.Phi); ok && ph.Block() == ret.Block() {
-				for i, e := range ph.Edges {
-					if reach[ret.Block().Preds[i]] && !isDecidedCall(e) {
-						good = false
-					}
-				}
-			} else {
-				good = isDecidedCall(ret.Results[0])
-			}
-			c.Check("isJustified DECIDED→isJustifiedDecided(msg)", posOf(ret), good, "for a DECIDED message isJustified does not return the verdict of isJustifiedDecided on that message")
-		}
-		if n == 0 {
-			c.Unsure("isJustified DECIDED→isJustifiedDecided(msg)", ij.Pos(), "no return reachable for a DECIDED message (panics?)")
-		}
-	}
-	// what isJustifiedDecided counts (same obligations as C02-Q4b, helper re-used)
-	c02Q4Decided(c)
-
-	// Run: Decide only for the two deciding rules, with the value/round of the message and classify's justification
-	r := c02NewRun(c)
-	c.Check("Run classify consumes the received message", r.classify.Pos(), r.classify.Call.Args[5] == r.recvMsg, "classify is not applied to the message received from Transport.Receive")
-	reach := c02ReachCut(r.fn.Blocks[0], c03RuleCut(r, uqc, ujd))
-	for _, dc := range c03DecideCalls(r) {
-		if dc.Parent() != r.fn {
-			c.Unsure("Run Decide call", dc.Pos(), "Definition.Decide is called from a helper closure of Run")
-			continue
-		}
-		a := dc.Common().Args
-		c.Check("Run Decide only upon UponQuorumCommits/UponJustifiedDecided", dc.Pos(), !reach[dc.Block()],
-			"Decide is reachable for a rule other than UponQuorumCommits and UponJustifiedDecided")
-		c.Check("Run Decide value is msg.Value()", dc.Pos(), c02IsMsgCallOn(a[2], "Value", r.recvMsg), "the decided value is not the value of the message whose commit quorum was counted")
-		c.Check("Run Decide round is msg.Round()", dc.Pos(), c02IsMsgCallOn(a[3], "Round", r.recvMsg), "the decided round is not the round of the message whose commit quorum was counted")
-		c.Check("Run Decide qcommit is classify's justification", dc.Pos(), a[4] == r.justV, "the qcommit handed to Decide is not the commit quorum returned by classify")
-	}
+// c03ZeroTest is a boolean value telling whether some value is the zero value.
+type c03ZeroTest struct {
+	v      ssa.Value // the boolean
+	tested ssa.Value // the tested operand
+	zero   bool      // truth value of v when tested is zero
 }
 
-// ---------------------------------------------------------------------------------------------
-// V4 — delivered payload is looked up by the decided hash
-
-func c03V4(c *rt.Ctx) {
-	nd := c.Fn(c03Q + ".newDefinition")
-	var dec *ssa.Function
-	for _, in := range an.Instrs(nd, false) {
-		st, ok := in.(*ssa.Store)
-		if !ok {
-			continue
+// c03ZeroTestsIn lists isZeroVal(x) calls and comparisons of x with zeroVal()/a zero local/nil in fn.
+func c03ZeroTestsIn(fn *ssa.Function) []c03ZeroTest {
+	isZero := func(x ssa.Value) bool {
+		x = an.Unwrap(x)
+		if c03Static(x, "zeroVal") != nil {
+			return true
 		}
-		fa, ok := st.Addr.(*ssa.FieldAddr)
-		if !ok || c02Strip(an.FieldKey(fa.X.Type(), fa.Field)) != c02P+".Definition.Decide" {
-			continue
+		if k, ok := x.(*ssa.Const); ok {
+			return k.Value == nil || k.IsNil()
 		}
-		var f *ssa.Function
-		switch x := st.Val.(type) {
-		case *ssa.MakeClosure:
-			f, _ = x.Fn.(*ssa.Function)
-		case *ssa.Function:
-			f = x
-		}
-		if f == nil || dec != nil {
-			c.Bail("newDefinition: Definition.Decide is not assigned exactly one function literal")
-		}
-		dec = f
-	}
-	if dec == nil {
-		c.Bail("newDefinition: no assignment of Definition.Decide found")
-	}
-	if len(dec.Params) != 5 {
-		c.Bail("Decide callback: unexpected signature")
-	}
-	hashP, qcP := dec.Params[2], dec.Params[4]
-	// Msg.Values returns the values field
-	vals := c.Fn(c03Q + ".Msg.Values")
-	{
-		good := len(an.Returns(vals)) > 0
-		for _, ret := range an.Returns(vals) {
-			k, base, ok := an.FieldOf(ret.Results[0])
-			if !ok || k != c03Q+".Msg.values" || !rootedAt(base, vals.Params[0]) {
-				good = false
-			}
-		}
-		c.Check("Msg.Values returns the recomputed-hash map", vals.Pos(), good, "Msg.Values() does not return the receiver's values field (the map keyed by recomputed hashes)")
-	}
-	// subscriber calls
-	var sinks []ssa.CallInstruction
-	for _, in := range an.Instrs(dec, true) {
-		ci, ok := in.(ssa.CallInstruction)
-		if !ok || ci.Common().IsInvoke() || ci.Common().StaticCallee() != nil {
-			continue
-		}
-		if an.TypeName(ci.Common().Value.Type()) == c03Q+".subscriber" {
-			sinks = append(sinks, ci)
-		}
-	}
-	if len(sinks) == 0 {
-		c.Bail("Decide callback: no call of a subscriber found")
-	}
-	// fromQcommit: m is (a type assertion of) an element of the qcommit parameter
-	fromQcommit := func(m ssa.Value) bool {
-		m = an.Unwrap(m)
-		if ex, ok := m.(*ssa.Extract); ok && ex.Index == 0 {
-			m = ex.Tuple
-		}
-		if ta, ok := m.(*ssa.TypeAssert); ok {
-			m = an.Unwrap(ta.X)
-		}
-		ld, ok := m.(*ssa.UnOp)
-		if !ok || ld.Op != token.MUL {
-			return false
-		}
-		ia, ok := ld.X.(*ssa.IndexAddr)
-		return ok && ia.X == ssa.Value(qcP)
-	}
-	// derivedFromValues: v comes out of some Values()/values map of a message by other means than the keyed lookup
-	isValuesMap := func(m ssa.Value) (ssa.Value, bool) {
-		m = an.Unwrap(m)
-		if call, ok := m.(*ssa.Call); ok && !call.Call.IsInvoke() && call.Call.StaticCallee() == vals && len(call.Call.Args) == 1 {
-			return call.Call.Args[0], true
-		}
-		if k, base, ok := an.FieldOf(m); ok && k == c03Q+".Msg.values" {
-			return base, true
-		}
-		return nil, false
-	}
-	var viaRange func(v ssa.Value, d int) bool
-	viaRange = func(v ssa.Value, d int) bool {
-		if d > 6 {
-			return false
-		}
-		switch x := an.Unwrap(v).(type) {
-		case *ssa.Phi:
-			for _, e := range x.Edges {
-				if viaRange(e, d+1) {
+		if ld, ok := x.(*ssa.UnOp); ok && ld.Op == token.MUL {
+			if al, ok := ld.X.(*ssa.Alloc); ok {
+				if sts, local := c03LocalStores(al); local && len(sts) == 0 {
 					return true
-				}
-			}
-		case *ssa.Extract:
-			if nx, ok := x.Tuple.(*ssa.Next); ok {
-				if rg, ok := nx.Iter.(*ssa.Range); ok {
-					_, is := isValuesMap(rg.X)
-					return is
 				}
 			}
 		}
 		return false
 	}
-	for _, sk := range sinks {
-		args := sk.Common().Args
-		if len(args) != 3 {
-			c.Unsure("Decide callback subscriber call", sk.Pos(), "unexpected subscriber arity")
-			continue
-		}
-		key := "Decide callback payload is Values()[valueHash] of a qcommit message"
-		ex, ok := an.Unwrap(args[2]).(*ssa.Extract)
-		var um *ssa.Call
-		if ok && ex.Index == 0 {
-			um, _ = ex.Tuple.(*ssa.Call)
-		}
-		if um == nil || um.Call.IsInvoke() || um.Call.StaticCallee() == nil || um.Call.StaticCallee().Name() != "UnmarshalNew" || len(um.Call.Args) != 1 {
-			c.Unsure(key, sk.Pos(), "the payload is not the result of anypb UnmarshalNew")
-			continue
-		}
-		g, w := an.Guarded(um, sk, an.DefaultGuard)
-		c.Check("Decide callback checks the unmarshal error", sk.Pos(), g, "subscribers are called although unmarshalling the decided value failed: "+w)
-		anyV := an.Unwrap(um.Call.Args[0])
-		lex, ok := anyV.(*ssa.Extract)
-		var lk *ssa.Lookup
-		if ok && lex.Index == 0 {
-			lk, _ = lex.Tuple.(*ssa.Lookup)
-		} else if l2, ok := anyV.(*ssa.Lookup); ok {
-			lk = l2
-		}
-		if lk == nil {
-			if viaRange(anyV, 0) {
-				c.Bad(key, sk.Pos(), "the payload is an arbitrary entry of the message's values map, not the entry of the decided hash: a value nobody agreed on is handed to the duty store")
-			} else {
-				c.Unsure(key, sk.Pos(), "the payload is not a lookup in a values map")
+	var out []c03ZeroTest
+	for _, in := range an.Instrs(fn, false) {
+		switch x := in.(type) {
+		case *ssa.Call:
+			if c03Static(x, "isZeroVal") != nil && len(x.Call.Args) == 1 {
+				out = append(out, c03ZeroTest{x, x.Call.Args[0], true})
 			}
-			continue
+		case *ssa.BinOp:
+			if x.Op != token.EQL && x.Op != token.NEQ {
+				continue
+			}
+			switch {
+			case isZero(x.Y) && !isZero(x.X):
+				out = append(out, c03ZeroTest{x, x.X, x.Op == token.EQL})
+			case isZero(x.X) && !isZero(x.Y):
+				out = append(out, c03ZeroTest{x, x.Y, x.Op == token.EQL})
+			}
 		}
-		recv, isVals := isValuesMap(lk.X)
-		switch {
-		case !isVals:
-			c.Unsure(key, sk.Pos(), "the payload is looked up in a map that is not Msg.Values()")
-		case lk.Index != ssa.Value(hashP):
-			c.Bad(key, sk.Pos(), "the payload is not looked up by the decided value hash")
-		case !fromQcommit(recv):
-			c.Unsure(key, sk.Pos(), "the values map does not belong to a message of the qcommit parameter")
-		default:
-			c.Good(key, sk.Pos(), "UnmarshalNew(qcommit[i].(Msg).Values()[valueHash])")
+	}
+	return out
+}
+
+func c03V2(c *rt.Ctx) {
+	r := c03NewRun(c)
+	pps := c03PrePrepares(r)
+	cell := c03InputCell(r, pps[0].inner.Common().Args[5].Type())
+	isCellLoad := func(v ssa.Value) bool { return r.cellOf(v) == cell }
+	// sameVersion: the operand of a zero test denotes the very value the variable holds at `anchor` (the
+	// load feeding the broadcast, or a call site on the way to it)
+	sameVersion := func(tested ssa.Value, anchor ssa.Instruction) (same bool, why string) {
+		tested = an.Unwrap(tested)
+		if tl, ok := tested.(*ssa.UnOp); ok && r.cellOf(tl) == cell {
+			if ssa.Instruction(tl) == anchor {
+				return true, ""
+			}
+			if tl.Parent() != anchor.Parent() {
+				return false, ""
+			}
+			if w := r.writeBetween(tl, anchor, cell); w != nil {
+				return false, "the input value can be re-assigned between the zero-value test and the broadcast"
+			}
+			if !c03PathAvoiding(tl, anchor, nil) {
+				return false, ""
+			}
+			return true, ""
 		}
-		if lk.CommaOk {
-			okv := c05Extract(lk, 1)
-			good := okv != nil && !c03ReachUnder(lk, sk, func(v ssa.Value) (constant.Value, bool) {
-				if v == okv {
-					return constant.MakeBool(false), true
+		if ld, ok := anchor.(*ssa.UnOp); ok {
+			if cv := r.cellValue(ld); cv != nil && r.sameAt(r.eng.root(ld.Parent()), cv, r.eng.root(ld.Parent()), tested) {
+				return true, ""
+			}
+		}
+		return false, ""
+	}
+	type cand struct {
+		z  c03ZeroTest
+		at ssa.Instruction
+	}
+	var guardedAt func(fr *c03Frame, anchor, use ssa.Instruction, depth int) (good bool, unsure bool, why string)
+	guardedAt = func(fr *c03Frame, anchor, use ssa.Instruction, depth int) (good bool, unsure bool, why string) {
+		fn := anchor.Parent()
+		var cands []cand
+		reassigned := ""
+		for _, z := range c03ZeroTestsIn(fn) {
+			same, w := sameVersion(z.tested, anchor)
+			if w != "" {
+				reassigned = w
+			}
+			if !same {
+				continue
+			}
+			if at, ok := z.v.(ssa.Instruction); ok {
+				cands = append(cands, cand{z: z, at: at})
+			}
+		}
+		// a function literal whose boolean result is decided by a zero test of the variable
+		for _, in := range an.Instrs(fn, false) {
+			call, ok := in.(*ssa.Call)
+			if !ok || call.Call.IsInvoke() {
+				continue
+			}
+			g := r.closureOf(call.Call.Value)
+			if g == nil || g == r.fn || g.Signature.Results().Len() != 1 || r.writers(cell)[g] {
+				continue
+			}
+			var inner []c03ZeroTest
+			for _, z := range c03ZeroTestsIn(g) {
+				if isCellLoad(z.tested) {
+					inner = append(inner, z)
 				}
-				return nil, false
-			})
-			c.Check("Decide callback checks presence of the decided hash", sk.Pos(), good, "subscribers are called although the decided hash is not in the values map")
-		} else {
-			c.Unsure("Decide callback checks presence of the decided hash", sk.Pos(), "plain lookup: a missing hash yields a nil payload")
+			}
+			if len(inner) == 0 {
+				continue
+			}
+			verdict := func(zero bool) (constant.Value, int) {
+				f := c03NoFacts()
+				for _, z := range inner {
+					f.val(z.v, c03Bool(z.zero == zero))
+				}
+				return r.eng.under(f).evalCall(fr, call, 0)
+			}
+			kz, s1 := verdict(true)
+			kn, s2 := verdict(false)
+			if s1 != c03Known || s2 != c03Known || kz.Kind() != constant.Bool || constant.BoolVal(kz) == constant.BoolVal(kn) {
+				continue
+			}
+			if ssa.Instruction(call) == anchor || r.writeBetween(call, anchor, cell) != nil || !(an.Dominates(call, anchor) || c03PathAvoiding(call, anchor, nil)) {
+				continue
+			}
+			cands = append(cands, cand{z: c03ZeroTest{call, nil, constant.BoolVal(kz)}, at: call})
 		}
+		if len(cands) == 0 {
+			if reassigned != "" {
+				return false, false, reassigned
+			}
+			// the test may be made by the caller of this function literal
+			if fr.up != nil && fr.site != nil && depth < 4 && len(fn.Blocks) > 0 && len(fn.Blocks[0].Instrs) > 0 {
+				first := fn.Blocks[0].Instrs[0]
+				if first == anchor || r.writeBetween(first, anchor, cell) == nil {
+					if !r.mayWrite(first, cell) {
+						return guardedAt(fr.up, fr.site, fr.site, depth+1)
+					}
+				}
+			}
+			return false, false, "no zero-value test of the input value precedes the broadcast"
+		}
+		facts := c03NoFacts()
+		for _, cd := range cands {
+			facts.val(cd.z.v, c03Bool(cd.z.zero))
+		}
+		eng := r.eng.under(facts)
+		why = "the zero-value test does not dominate the broadcast"
+		dominated := false
+		for _, cd := range cands {
+			if !an.Dominates(cd.at, use) {
+				continue
+			}
+			dominated = true
+			reach, und := eng.reachableFrom(fr, cd.at, use)
+			if und {
+				unsure = true
+				continue
+			}
+			if !reach {
+				return true, false, ""
+			}
+			why = "the broadcast is reachable although the tested input value is zero"
+		}
+		if !dominated {
+			return false, true, why
+		}
+		return false, unsure, why
+	}
+	guardedUse := func(fr *c03Frame, ld *ssa.UnOp, use ssa.Instruction) (good bool, unsure bool, why string) {
+		return guardedAt(fr, ld, use, 0)
+	}
+	type seenKey struct {
+		ld  ssa.Value
+		use ssa.Instruction
+		fr  *c03Frame
+	}
+	seen := map[seenKey]bool{}
+	// one obligation per (load, consuming call), whatever the number of call chains leading to it
+	aggs := map[seenKey]*ownAgg{}
+	var order []*ownAgg
+	defer func() {
+		for _, a := range order {
+			a.tri.report(c, a.key, a.pos, "", "a PRE-PREPARE can be broadcast with the zero value as own proposal: "+a.why, a.why)
+		}
+	}()
+	for _, b := range pps {
+		v, vfr, use := b.value(r)
+		switch {
+		case isCellLoad(v):
+			ld := an.Unwrap(v).(*ssa.UnOp)
+			if seen[seenKey{ld, use, vfr}] {
+				continue
+			}
+			seen[seenKey{ld, use, vfr}] = true
+			where := "receive case"
+			if ld.Parent() != r.fn {
+				where = "helper closure"
+			}
+			key := "Run PRE-PREPARE own input is non-zero (" + where + ")"
+			ak := seenKey{ld, use, nil}
+			a := aggs[ak]
+			if a == nil {
+				a = &ownAgg{key: key, pos: posOf(ld)}
+				aggs[ak] = a
+				order = append(order, a)
+			}
+			if use == nil || use.Parent() != ld.Parent() {
+				a.add(c03Maybe, "the call consuming the loaded input value was not found")
+				continue
+			}
+			good, unsure, why := guardedUse(vfr, ld, use)
+			switch {
+			case good:
+				a.add(c03Yes, "")
+			case unsure:
+				a.add(c03Maybe, why)
+			default:
+				a.add(c03No, why)
+			}
+		case func() bool {
+			// the received input itself (not re-read from the state variable)
+			rv, rfr := r.eng.resolve(vfr, v)
+			if use == nil || rfr != vfr {
+				return false
+			}
+			for _, st := range r.stores(cell) {
+				if sv, _ := r.eng.resolve(r.eng.root(st.Parent()), st.Val); sv == rv && st.Parent() == vfr.fn {
+					return true
+				}
+			}
+			return false
+		}():
+			rv, _ := r.eng.resolve(vfr, v)
+			if seen[seenKey{rv, use, vfr}] {
+				continue
+			}
+			seen[seenKey{rv, use, vfr}] = true
+			key := "Run PRE-PREPARE own input is non-zero (receive case)"
+			facts := c03NoFacts()
+			var tests []ssa.Instruction
+			for _, z := range c03ZeroTestsIn(vfr.fn) {
+				if tv, _ := r.eng.resolve(vfr, z.tested); tv == rv {
+					facts.val(z.v, c03Bool(z.zero))
+					if at, ok := z.v.(ssa.Instruction); ok {
+						tests = append(tests, at)
+					}
+				}
+			}
+			tri, why := c03No, "no zero-value test of the input value precedes the broadcast"
+			for _, at := range tests {
+				if !an.Dominates(at, use) {
+					if tri == c03No {
+						tri, why = c03Maybe, "the zero-value test does not dominate the broadcast"
+					}
+					continue
+				}
+				reach, und := r.eng.under(facts).reachableFrom(vfr, at, use)
+				switch {
+				case und:
+					tri, why = c03Maybe, "reachability of the broadcast for a zero input could not be decided"
+				case !reach:
+					tri = c03Yes
+				default:
+					tri, why = c03No, "the broadcast is reachable although the tested input value is zero"
+				}
+				if tri != c03Maybe {
+					break
+				}
+			}
+			tri.report(c, key, use.Pos(), "", "a PRE-PREPARE can be broadcast with the zero value as own proposal: "+why, why)
+		case r.pvOf(v) != nil:
+			// the justified prepared value: V5
+		case func() bool { _, _, traced := r.pvOrigins(vfr, v, use, -1, 0); return traced }():
+			// the justified prepared value handed out by a helper: V5
+		default:
+			rv, _ := r.eng.resolve(vfr, v)
+			positive := false
+			switch x := rv.(type) {
+			case *ssa.Const:
+				positive = true
+			case *ssa.UnOp:
+				positive = x.Op == token.MUL && r.cellOf(x) != nil && r.cellOf(x) != cell
+			case *ssa.Call:
+				positive = x.Call.IsInvoke() || c03Static(x, "zeroVal") != nil
+			case *ssa.Extract:
+				_, isCall := x.Tuple.(*ssa.Call)
+				positive = isCall && r.pvOf(x) == nil
+			}
+			if isCellLoad(rv) || r.pvOf(rv) != nil {
+				positive = false
+			}
+			if seen[seenKey{rv, b.inner, nil}] {
+				continue
+			}
+			seen[seenKey{rv, b.inner, nil}] = true
+			if positive {
+				c.Bad("Run PRE-PREPARE value provenance", b.inner.Pos(),
+					"a PRE-PREPARE carries a value that is neither the node's own input nor the prepared value of getSingleJustifiedPrPv")
+			} else {
+				c.Unsure("Run PRE-PREPARE value provenance", b.inner.Pos(), "the value of a PRE-PREPARE broadcast could not be traced to the node's own input or to getSingleJustifiedPrPv")
+			}
+		}
+	}
+	// isJustifiedPrePrepare returns false whenever msg.Value() is the zero value
+	fn := c.Fn(c03P + ".isJustifiedPrePrepare")
+	msg := c03ParamOfType(c, fn, c03P+".Msg")
+	eng := c03NewEng(fn.Pkg)
+	fr := eng.root(fn)
+	zt := "zero?(m:Value(" + eng.term(fr, msg) + "))"
+	key := "isJustifiedPrePrepare rejects the zero value"
+	st, at, why := c03AllReturn(eng.under(c03NoFacts().term(zt, c03Bool(true))), fr, false)
+	switch st {
+	case c03Known:
+		c.Good(key, fn.Pos(), "under isZeroVal(msg.Value()) every return yields false")
+	case c03Opaque:
+		c.Unsure(key, at, "assuming msg.Value() is the zero value, "+why)
+	default:
+		c.Bad(key, at, "a PRE-PREPARE proposing the zero value is accepted (and can then be prepared, committed and decided): assuming msg.Value() is the zero value, "+why)
 	}
 }
 
-// ---------------------------------------------------------------------------------------------
-// V5 — re-proposal of the justified prepared value
+// ownAgg merges the verdicts of one own-input broadcast over the call chains that lead to it.
+type ownAgg struct {
+	key string
+	pos token.Pos
+	tri c03Tri
+	why string
+}
 
-func c03V5(c *rt.Ctx) {
-	r := c02NewRun(c)
-	uqrc := constOf(c, c02P, "UponQuorumRoundChanges")
-	reach := c02ReachCut(r.fn.Blocks[0], c03RuleCut(r, uqrc))
-	n := 0
-	for _, b := range c03PrePrepares(r) {
-		g := c03PvOf(b.args[5])
-		if g == nil {
-			continue
-		}
-		n++
-		if b.site.Parent() != r.fn || g.Parent() != r.fn {
-			c.Unsure("Run re-proposal", b.site.Pos(), "re-proposal is broadcast from a helper closure")
-			continue
-		}
-		ok, w := an.Guarded(g, b.site, an.GuardOpt{BoolIdx: 2, BoolWant: true, NoErr: true})
-		c.Check("Run re-proposal of pv only on the ok edge of getSingleJustifiedPrPv", b.site.Pos(), ok,
-			"a PRE-PREPARE proposes a 'prepared value' that is not backed by a quorum of PREPAREs: "+w)
-		c.Check("Run re-proposal pv extracted from classify's justification", b.site.Pos(), len(g.Call.Args) == 2 && g.Call.Args[1] == r.justV,
-			"pv is not extracted from the justified ROUND-CHANGE quorum returned by classify")
-		c.Check("Run re-proposal carries classify's justification", b.site.Pos(), b.args[8] == r.justV,
-			"the PRE-PREPARE re-proposing pv does not carry the ROUND-CHANGE quorum that justifies it")
-		c.Check("Run re-proposal only upon UponQuorumRoundChanges", b.site.Pos(), !reach[b.site.Block()],
-			"a prepared value is proposed outside the UponQuorumRoundChanges rule")
-	}
-	if n == 0 {
-		c.Bad("Run UponQuorumRoundChanges re-proposes the justified prepared value", r.classify.Pos(),
-			"no PRE-PREPARE broadcast carries pv of getSingleJustifiedPrPv: a new leader proposes its own value although another may already be prepared (and decided elsewhere)")
-	} else {
-		c.Good("Run UponQuorumRoundChanges re-proposes the justified prepared value", r.classify.Pos(), fmt.Sprintf("%d PRE-PREPARE broadcast(s) carry pv", n))
-	}
-	// classify hands over the checked result of getJustifiedQrc
-	fn := c.Fn(c02P + ".classify")
-	msg := c02ParamOfType(c, fn, c02P+".Msg")
-	m := 0
-	for _, pt := range c03RetPoints(fn) {
-		k, isC := an.ConstInt(pt.rule)
-		if !isC || k != uqrc {
-			continue
-		}
-		m++
-		key := "classify UponQuorumRoundChanges returns the checked getJustifiedQrc result"
-		ex, ok := an.Unwrap(pt.just).(*ssa.Extract)
-		var call *ssa.Call
-		if ok && ex.Index == 0 {
-			call = c02Static(ex.Tuple, "getJustifiedQrc")
-		}
-		if call == nil {
-			c.Bad(key, posOf(pt.at), "the justification returned with UponQuorumRoundChanges is not the result of getJustifiedQrc")
-			continue
-		}
-		g, w := an.Guarded(call, pt.at, an.GuardOpt{BoolIdx: 1, BoolWant: true, NoErr: true})
-		c.Check(key, posOf(pt.at), g, "the ok result of getJustifiedQrc does not gate the rule: "+w)
-		a := call.Call.Args
-		fl := c02Static(a[1], "flatten")
-		c.Check("classify getJustifiedQrc over the buffer and msg.Round()", posOf(pt.at), len(a) == 3 && fl != nil && an.IsMapType(fl.Call.Args[0].Type()) && c02IsMsgCallOn(a[2], "Round", msg),
-			"the justified ROUND-CHANGE quorum is not computed from the buffered messages of the message's round")
-	}
-	if m == 0 {
-		c.Unsure("classify UponQuorumRoundChanges", fn.Pos(), "no return of UponQuorumRoundChanges found")
+func (a *ownAgg) add(t c03Tri, why string) {
+	if (t == c03No && a.tri != c03No) || (t == c03Maybe && a.tri == c03Yes) {
+		a.tri, a.why = t, why
 	}
 }
 
-// ---------------------------------------------------------------------------------------------
+// c03AllReturn: under the engine's assumption every return of fr.fn that can be reached yields the
+// boolean `want` as its first result. Status c03Known = yes; c03Free = a return yields something else
+// (or something independent of the assumption); c03Opaque = could not be decided.
+func c03AllReturn(e *c03Eng, fr *c03Frame, want bool) (status int, at token.Pos, why string) {
+	w := e.walk(fr, nil, 0, nil)
+	if w.truncated {
+		return c03Opaque, fr.fn.Pos(), "too many paths"
+	}
+	if len(w.rets) == 0 {
+		return c03Opaque, fr.fn.Pos(), "no return can be reached"
+	}
+	status = c03Known
+	for _, rt := range w.rets {
+		res := returnValues(rt.ret)
+		if len(res) == 0 {
+			return c03Opaque, posOf(rt.ret), "the function has no result"
+		}
+		k, st := e.eval(fr, res[0], rt.pe)
+		switch {
+		case st == c03Known && k.Kind() == constant.Bool && constant.BoolVal(k) == want:
+		case st == c03Known:
+			if w.opaque {
+				return c03Opaque, posOf(rt.ret), fmt.Sprintf("a return yielding %v may be reachable (a branch on the way could not be looked into)", !want)
+			}
+			return c03Free, posOf(rt.ret), fmt.Sprintf("a reachable return yields %v", !want)
+		case st == c03Free:
+			if status != c03Opaque {
+				status, at, why = c03Free, posOf(rt.ret), fmt.Sprintf("a reachable return yields a verdict that is not determined to be %v", want)
+			}
+		default:
+			status, at, why = c03Opaque, posOf(rt.ret), "the verdict of a reachable return could not be evaluated"
+		}
+	}
+	if status != c03Known && w.opaque {
+		return c03Opaque, at, why + " (a branch on the way could not be looked into)"
+	}
+	return status, at, why
+}
 
 const c03F = "core/qbft/qbft.go"
 const c03G = "core/consensus/qbft/qbft.go"
@@ -1325,4 +1306,33 @@ var c03Mutants = []Mutant{
 		New: "\t\tqrc, _ := getJustifiedQrc(d, all, msg.Round())\n"},
 	{ID: "C03-V5-classify-returns-all", File: c03F, Expect: "V5|checked getJustifiedQrc",
 		Old: "\t\treturn UponQuorumRoundChanges, qrc", New: "\t\t_ = qrc\n\n\t\treturn UponQuorumRoundChanges, all"},
+	// added with the valuation-driven reformulation (named booleans, helpers, equal-by-guard criteria)
+	{ID: "C03-V1-decided-only-for-round-change", File: c03F, Expect: "V1|cuts off",
+		Old: "\t\t\tif len(qCommit) > 0 {\n\t\t\t\tif msg.Source() != process && msg.Type() == MsgRoundChange && // Algorithm 3:17\n\t\t\t\t\tallowDecidedResend",
+		New: "\t\t\tif len(qCommit) > 0 && msg.Type() == MsgRoundChange {\n\t\t\t\tif msg.Source() != process && msg.Type() == MsgRoundChange && // Algorithm 3:17\n\t\t\t\t\tallowDecidedResend"},
+	{ID: "C03-V2-input-tested-before-assignment", File: c03F, Expect: "V2|receive case",
+		Old: "\t\tcase inputValue = <-inputValueCh:\n\t\t\tif isZeroVal(inputValue) {\n\t\t\t\treturn errors.New(\"zero input value not supported\")\n\t\t\t}\n",
+		New: "\t\tcase received := <-inputValueCh:\n\t\t\tif isZeroVal(inputValue) && round > 1 {\n\t\t\t\treturn errors.New(\"zero input value not supported\")\n\t\t\t}\n\n\t\t\tinputValue = received\n"},
+	{ID: "C03-V2-accept-zero-after-compare-failure", File: c03F, Expect: "V2|isJustifiedPrePrepare",
+		Old: "\tif isZeroVal(msg.Value()) {\n\t\treturn false", New: "\tif isZeroVal(msg.Value()) && compareFailureRound == 0 {\n\t\treturn false"},
+	{ID: "C03-V3-classify-commits-of-current-round", File: c03F, Expect: "V3|message's round",
+		Old: "\t\t// Ignore other rounds, since COMMIT isn't justified.\n\t\tif msg.Round() != round {\n\t\t\treturn UponNothing, nil\n\t\t}\n\n\t\tcommits := filterByRoundAndValue(flatten(buffer), MsgCommit, msg.Round(), msg.Value())",
+		New: "\t\tcommits := filterByRoundAndValue(flatten(buffer), MsgCommit, round, msg.Value())"},
+	{ID: "C03-V3-prepare-quorum-decides", File: c03F, Expect: "V3|COMMIT messages",
+		Old: "\t\t\treturn UponQuorumPrepares, prepares", New: "\t\t\treturn UponQuorumCommits, prepares"},
+	{ID: "C03-V3-decided-accepted-like-commit", File: c03F, Expect: "V3|isJustified DECIDED",
+		Old: "\tcase MsgPrepare, MsgCommit:\n\t\treturn true\n\tcase MsgRoundChange:\n\t\treturn isJustifiedRoundChange(d, msg)\n\tcase MsgDecided:\n\t\treturn isJustifiedDecided(d, msg)\n",
+		New: "\tcase MsgPrepare, MsgCommit, MsgDecided:\n\t\treturn true\n\tcase MsgRoundChange:\n\t\treturn isJustifiedRoundChange(d, msg)\n"},
+	{ID: "C03-V3-decided-fplus1-suffices", File: c03F, Expect: "V3|isJustifiedDecided verdict",
+		Old: "\treturn len(commits) >= d.Quorum()\n}\n\n// isJustifiedPrePrepare", New: "\treturn len(commits) >= d.Quorum() || len(commits) >= d.Faulty()+1\n}\n\n// isJustifiedPrePrepare"},
+	{ID: "C03-V4-missing-hash-only-late-rounds", File: c03G, Expect: "V4|presence",
+		Old: "\t\t\tanyValue, ok := msg.Values()[valueHash]\n\t\t\tif !ok {", New: "\t\t\tanyValue, ok := msg.Values()[valueHash]\n\t\t\tif !ok && round > 1 {"},
+	{ID: "C03-V4-unmarshal-error-only-late-rounds", File: c03G, Expect: "V4|unmarshal error",
+		Old: "\t\t\tvalue, err := anyValue.UnmarshalNew()\n\t\t\tif err != nil {", New: "\t\t\tvalue, err := anyValue.UnmarshalNew()\n\t\t\tif err != nil && round > 1 {"},
+	{ID: "C03-V5-pv-when-pr-positive", File: c03F, Expect: "V5|ok edge",
+		Old: "if ok && compareFailureRound != pr {", New: "if compareFailureRound != pr && (ok || pr > 0) {"},
+	{ID: "C03-V5-reproposal-on-unjust-qrc", File: c03F, Expect: "V5|only upon",
+		Old:  "\t\t\tcase UponQuorumRoundChanges: // Algorithm 3:11",
+		New:  "\t\t\tcase UponQuorumRoundChanges, UponUnjustQuorumRoundChanges: // Algorithm 3:11",
+		More: [][2]string{{"\t\t\tcase UponUnjustQuorumRoundChanges:\n\t\t\t\t// Ignore bug or byzantine\n\n", ""}}},
 }
